@@ -432,7 +432,15 @@ def fam_fixed_structs(rng, n):
             for _ in range(k):
                 r = [rnat(rng, w) for w in V7_REC_W]
                 recs.append(r[:14] + [0] + r[14:])
-        out.append(("fixed-struct", [{"op": "fixed_roundtrip", "v": v, "hdr": hdr, "recs": recs}]))
+        o = {"op": "fixed_roundtrip", "v": v, "hdr": hdr, "recs": recs}
+        r_ = rng.random()
+        if r_ < 0.06:
+            hdr[0] = rng.choice([0, 1, 6, 9, 10, 12, 65535, 5 if v == 7 else 7])          # a structure whose version FIELD is not its type's version
+        elif r_ < 0.12 and recs:
+            o["raw_pt"] = True                                                          # protocol_type taken from slot 14, not derived
+            for r in recs:
+                r[14] = rng.choice([r[13], (r[13] + 1) % 256, 6, 17, 0, 255])
+        out.append(("fixed-struct", [o]))
     return out
 
 
